@@ -19,7 +19,12 @@ pub fn get() -> FunctionDefinitions {
                 } {
                     let num1: f64 = num1.into();
                     let num2: f64 = num2.into();
-                    Some((num1 - num2).into())
+                    let result = num1 - num2;
+                    if result.is_finite() {
+                        Some(result.into())
+                    } else {
+                        None
+                    }
                 } else {
                     None
                 }
